@@ -68,12 +68,14 @@ func (m *Model) GetPosition(dir traits.OpenClosePosition_Direction, opts ...reso
 
 func (m *Model) UpdatePositions(positions *traits.OpenClosePositions, opts ...resource.WriteOption) (*traits.OpenClosePositions, error) {
 	// preset handling
+	states := positions.States
 	if positions.Preset != nil {
 		preset, presetPositions := m.presetForName(positions.Preset.Name)
 		if preset == nil {
 			return nil, status.Errorf(codes.InvalidArgument, "preset %q not found", positions.Preset.Name)
 		}
-		positions.States = presetPositions
+		// not written into the caller's message: it would then share the preset's positions with the model
+		states = presetPositions
 	}
 
 	writeRequest := resource.ComputeWriteConfig(opts...)
@@ -83,7 +85,7 @@ func (m *Model) UpdatePositions(positions *traits.OpenClosePositions, opts ...re
 	}
 	opts = append(opts, resource.WithCreateIfAbsent())
 
-	for _, state := range positions.States {
+	for _, state := range states {
 		_, err := m.positions.Update(directionToID(state.Direction), state, opts...)
 		if err != nil {
 			return nil, err
